@@ -71,6 +71,18 @@ type TxInfo struct {
 	Blocktime  int64
 }
 
+// Meta returns the parsed metadata (nil when the transaction has none).
+func (t *TxInfo) Meta() *confirmed_block.TransactionStatusMeta {
+	if t.MetaRaw == nil {
+		return nil
+	}
+	m := &confirmed_block.TransactionStatusMeta{}
+	if err := proto.Unmarshal(t.MetaRaw, m); err != nil {
+		panic(err)
+	}
+	return m
+}
+
 // Mentions reports whether the transaction mentions the account (static or loaded).
 func (t *TxInfo) Mentions(k solana.PublicKey) bool {
 	for _, a := range t.Static {
@@ -570,7 +582,12 @@ func Build(spec *EpochSpec) (ep *Epoch, err error) {
 		if i == 0 {
 			slot = first + uint64(bs.Gap)
 			if spec.Epoch == 0 {
-				// real ledgers: slot 0 has parent 0; a chain starting later has an unarchived parent 0
+				// real ledgers: slot 0 has parent 0 and is followed by slot 1; a chain that
+				// starts later has an unarchived parent 0 (the server treats parent_slot 0
+				// as "no parent" except for slot 1, whose parent must then be archived)
+				if slot == 1 {
+					slot = 2
+				}
 				parent = 0
 			} else if spec.ParentInPrev {
 				parent = first - 1 - uint64(spec.Seed%7)
@@ -579,6 +596,9 @@ func Build(spec *EpochSpec) (ep *Epoch, err error) {
 			}
 		} else {
 			slot = prevSlot + uint64(bs.Gap)
+			if spec.Epoch == 0 && prevSlot == 0 {
+				slot = 1
+			}
 			parent = prevSlot
 		}
 		if slot > last {
